@@ -214,7 +214,7 @@ def te_variants():
 
 
 TERMS = ['crlf', 'lf', 'crcrlf', 'cr-line-before', 'cr-line-after']
-LAYOUTS = ['A', 'B']
+LAYOUTS = ['A', 'B', 'C']
 NORMAL_CL = ('absent', 'plain')
 NORMAL_TE = ('absent', 'chunked')
 CL_NAMES = [n for n, _ in cl_variants(1, 2)]
@@ -268,8 +268,11 @@ def build_stream(case, host, url):
     if case['layout'] == 'A':
         body = b'0\r\n\r\n' + E        # chunked reading: empty body, then E is the next request; CL=N reading: all of it is body
         K = 5                         # a conflicting length that ends exactly after the last-chunk
-    else:
+    elif case['layout'] == 'B':
         body = E                      # no-body reading: E is the next request; CL=N reading: E is the body; not a chunked body
+        K = 0
+    else:
+        body = b'%x\r\n' % len(E) + E + b'\r\n0\r\n\r\n'     # chunked reading: E is the (decoded) body; CL=N reading: all of it is body
         K = 0
     N = len(body)
     cl = dict(cl_variants(N, K))[case['cl']]
@@ -349,12 +352,13 @@ def head_problems(raw_head):
 
 
 def blame_key(case, term):
-    """Which input dimension the reference blames for its verdict -> the part of the case that identifies the class."""
+    """Which input dimension the reference blames for its verdict -> the part of the case that identifies the class
+    (plus the parser mode, which selects different code paths in Squid)."""
     b = term.get('blame', '')
     if b == 'te' or b == 'name:transfer-encoding':
-        return 'te=' + case['te']
+        return 'te=%s,relaxed=%s' % (case['te'], case['relaxed'])
     if b == 'cl' or b == 'name:content-length':
-        return 'cl=' + case['cl']
+        return 'cl=%s,relaxed=%s' % (case['cl'], case['relaxed'])
     return 'cl=%s,te=%s,term=%s' % (case['cl'], case['te'], case['term'])
 
 
@@ -387,7 +391,7 @@ def judge(case, stream, parts, fwd, leftovers, client_bytes, client_eof, base):
                             i + 1, fdesc(f), len(f.body), len(m['body']), '' if m['complete'] else ' and no end', refs)))
             break
         if m['close_after'] and len(fwd) > i + 1:
-            vio.append(('http10-te-connection-reused', 'after:te=' + case['te'],
+            vio.append(('http10-te-connection-reused', 'any-te-accepted-as-chunked',
                         'M1 is an HTTP/1.0 request with Transfer-Encoding (RFC 9112 6.1: framing faulty, MUST close the connection after '
                         'processing it), yet Squid went on reading the connection and forwarded %s' % fdesc(fwd[i + 1])))
             break
@@ -468,6 +472,10 @@ def run_case(w, case):
         oc = 'forwarded-%d-then-stopped(%s)' % (len(fwd), errs[0] if errs else ('closed' if client_eof else 'open'))
     else:
         oc = 'forwarded-all-%d(ref:%s)' % (len(fwd), term['kind'])
+    if L and L[0].get('had_cl') and L[0].get('had_te') and len(fwd) > 1:
+        # RFC 9112 6.1 also wants the connection closed after a request that carried both CL and TE; boundaries agree
+        # (TE overrides CL), so this is recorded as an observation, not as a violation of C03
+        oc += '[CL+TE:connection-kept]'
     transcript = b'O:' + ex.origin_raw + b'\nC:' + client_bytes + (b'\nEOF' if client_eof else b'')
     violation = None
     if vio:
@@ -507,7 +515,7 @@ ASSUME = ['the real squid binary (ASan build of the current tree) runs under the
           'the whole pipeline is written to the client socket at once; segmentation of the client stream is not varied here (C21/C02/C05 do that)',
           'header order is fixed (Host, [Connection], Content-Length field(s), Transfer-Encoding field(s)); pipeline_prefetch is at its default']
 RULE = ('product of 24 Content-Length variants x 17 Transfer-Encoding variants x 5 line-terminator styles x {GET,POST} x {HTTP/1.1,1.0} x '
-        'relaxed_header_parser {on,off} x 2 body layouts (body = "0 CRLF CRLF" + embedded request, or the embedded request alone), each followed by a '
+        'relaxed_header_parser {on,off} x 3 body layouts (body = "0 CRLF CRLF" + embedded request / the embedded request alone / the embedded request as one chunk + last-chunk), each followed by a '
         'pipelined marker request; quick = cases with at most one anomalous dimension; non-trivial = cases in which Squid took a framing decision that '
         'is visible to the oracle: at least one request forwarded upstream, or M1 refused with a 4xx/5xx answer')
 
@@ -530,7 +538,7 @@ def run(ctx):
     flagged = sum(v for k, v in oc.items() if k.startswith('VIOLATION:'))
     trivial = sum(v for k, v in oc.items() if k.startswith('rejected-M1(') and not k[12:15].isdigit())
     if not r['deadline_hit']:
-        if forwarded_all < evaluations // 20 or rejected < evaluations // 20:
+        if forwarded_all < 100 or rejected < 100:
             raise HarnessError('vacuity guard: forwarded-all=%d rejected=%d of %d cases: %r' % (forwarded_all, rejected, evaluations, oc))
         if not any(k.startswith('forwarded-all-3') for k in oc) or not any(k.startswith('forwarded-all-2') for k in oc):
             raise HarnessError('vacuity guard: the embedded request never arrived legitimately (chunked) or never stayed body (CL): %r' % oc)
@@ -538,7 +546,17 @@ def run(ctx):
     obs = ['squid problem during %s: %s' % (k, what[:300]) for k, what, c in r['crashes']]
     vio += [Violation('crash:cl=%s,te=%s,term=%s' % (c['cl'], c['te'], c['term']), 'squid crashed/asserted during case %r: %s' % (c, what), {'case': c})
             for k, what, c in r['crashes'] if c]
-    samples = [s for s in r['samples'] if s.get('case')]
+    samples = []
+    for smp in r['samples']:
+        if not smp.get('case'):
+            continue
+        c = smp['case']
+        stream, parts = build_stream(c, '127.0.0.1:P', lambda p: 'http://127.0.0.1:P' + p)
+        L, term = ref_delimit(stream)
+        samples.append({'case': c, 'client_sent_M1_head': repr(stream[:stream.find(parts['body'])]), 'then': 'body[%d] + marker request' % parts['N'],
+                        'reference': '%d message(s) %s then %s' % (len(L), [(m['method'].decode(), m['target'].decode()[-8:], m['framing'], len(m['body'])) for m in L],
+                                                                  term['kind'] + (':' + term.get('reason', '') if term['kind'] == 'reject' else '')),
+                        'squid': smp['outcome']})
     cov = {'evaluations': evaluations, 'distinct_nontrivial': fwd_some + rejected + flagged, 'rule': RULE, 'samples': samples,
            'outcome_classes': oc, 'exhaustive': not r['deadline_hit'] and evaluations == total, 'kicks': r['kicks'],
            'determinism_replays': r['replays'], 'cases_total': total, 'trivial': trivial,
